@@ -1,4 +1,4 @@
-package c11
+package c17
 
 import (
 	"archive/tar"
